@@ -103,10 +103,16 @@ def correspondence(ctx):
     entries, skipped = [], 0
     for t in trees:
         frac = rng.random() < 0.1
+        style = ul.rand_style(rng, 0.6)
         try:
-            obs = ul.run_tree([], t, frac)
+            obs = ul.run_tree([], t, frac, style=style)
         except ul.CaseInvalid:
             skipped += 1
+            continue
+        if obs.get("exc") == "crash":
+            res.evaluations += 1
+            res.disagreements.append({"name": "the implementation raised {} where the model returns".format(obs["what"]),
+                                      "kind": "tree", "case": {"history": [], "tree": t, "frac": frac}})
             continue
         if not obs["exact"]:
             res.count("skipped:inexact-float-exponent")
@@ -124,7 +130,34 @@ def correspondence(ctx):
 
         def mk(enc, t=t, obs=obs, shown=shown, frac=frac):
             return "((@nil event), {}, {}, {}, {})".format(enc.tree(t), enc.obs(obs), enc.opt_umap(shown), coq_bool(frac))
-        entries.append((mk, {"kind": "tree", "case": {"history": [], "tree": t, "frac": frac}}))
+        entries.append((mk, {"kind": "tree", "case": {"history": [], "tree": t, "frac": frac, "style": style}}))
+        for k_, v_ in (style or {"plain": 1}).items():
+            res.count("style:{}={}".format(k_, v_))
+    # read the result, change an operand's unit through the public setter (same object), recalculate, read again
+    for _ in range(ctx.n(150, 2500)):
+        t, idx, new = ul.gen_setunit(rng, [], leafgen)
+        style = ul.rand_style(rng, 0.6)
+        try:
+            obs = ul.run_setunit([], t, idx, new, style=style)
+        except ul.CaseInvalid:
+            continue
+        case = {"history": [], "tree": t, "idx": idx, "new": new, "style": style}
+        if obs.get("exc") == "crash":
+            res.evaluations += 1
+            res.disagreements.append({"name": "the implementation raised {} where the model returns".format(obs["what"]),
+                                      "kind": "tree", "case": case})
+            continue
+        if not obs["exact"]:
+            res.count("skipped:inexact-float-exponent")
+            continue
+        res.evaluations += 1
+        res.count("set-unit-then-recalculate")
+        nt = ul.replace_leaf(t, idx, new)
+        shown = ul.shown_items(obs, False)
+
+        def mk(enc, nt=nt, obs=obs, shown=shown):
+            return "((@nil event), {}, {}, {}, false)".format(enc.tree(nt), enc.obs(obs), enc.opt_umap(shown))
+        entries.append((mk, {"kind": "tree", "case": case}))
     op_entries = []
     for _ in range(ctx.n(400, 4000)):
         h, op, args = gen_operate_case(rng)
@@ -170,9 +203,9 @@ def check_case(case):
         core.fresh_impl()
         why = None
         for c in case["session"]:
-            why = ul.oracle_check(c.get("history", []), c["tree"], c.get("frac", False))
+            why = ul.check_one(c)
         return "after {} earlier operation(s) in the same interpreter: {}".format(len(case["session"]) - 1, why) if why else None
-    return ul.oracle_check(case.get("history", []), case["tree"], case.get("frac", False))
+    return ul.check_one(case)
 
 
 def fails_alone(case):
@@ -188,6 +221,8 @@ def report(case, why, journal=()):
         prefix = core.minimize_session(list(journal), lambda p: check_case({"session": p + [case]}) is not None)
         sess = {"session": prefix + [case]}
         return Violation(ID, "tree", sess, check_case(sess) or why)
+    if "idx" in case:
+        return Violation(ID, "tree", case, why)
     # every candidate is judged from a fresh library state, so the shrunk tree fails on its own
     small_t = ul.shrink_tree(case["tree"], lambda t: fails_alone(dict(case, tree=t)))
     small = dict(case, tree=small_t)
@@ -210,7 +245,7 @@ def search(ctx, suspects, budget):
     d1, d2 = exhaustive_trees(ctx)
     fam = d1 + d2
     stride = max(1, len(fam) // ctx.n(1500, 12000))
-    todo += [{"history": [], "tree": t, "frac": False} for t in fam[::stride]]
+    todo += [{"history": [], "tree": t, "frac": False, "style": ul.rand_style(rng, 0.7)} for t in fam[::stride]]
     n = 0
     core.fresh_impl()
     journal = []
@@ -219,9 +254,12 @@ def search(ctx, suspects, budget):
             case = todo.pop(0)
         elif time.time() - t0 > budget:
             break
+        elif rng.random() < 0.08:
+            t, idx, new = ul.gen_setunit(rng, [], oracle_leafgen)
+            case = {"history": [], "tree": t, "idx": idx, "new": new, "style": ul.rand_style(rng, 0.6)}
         else:
             case = {"history": [], "tree": ul.rand_tree(rng, rng.choice([1, 2, 2, 3, 4]), oracle_leafgen, p_other=0.0),
-                    "frac": rng.random() < 0.1}
+                    "frac": rng.random() < 0.1, "style": ul.rand_style(rng, 0.5)}
         n += 1
         if case.get("history"):
             continue
